@@ -117,6 +117,35 @@ def _l3_majority(k: int, a0: int, a1: int, a2: int, a3: int, c0: int, c1: int, c
     return S.consensus_clause(frags, [col0, col1], 100) is None
 
 
+def _l3b_majority_indel(k: int, variant: int, a0: int, a1: int, a2: int, c0: int, c1: int, c2: int) -> bool:
+    """
+    pre: 1 <= k <= 3
+    pre: 1 <= variant <= 2
+    pre: 0 <= a0 <= 4 and 0 <= a1 <= 4 and 0 <= a2 <= 4
+    pre: 0 <= c0 <= 4 and 0 <= c1 <= 4 and 0 <= c2 <= 4
+    post: _
+    """
+    # k fragments show bases (a_i, c_i) at reference positions 100 and 101; fragment 0 carries an indel between its two bases:
+    # variant 1 = one inserted base (1M1I1M: still 100 and 101; the inserted base belongs to no reference position),
+    # variant 2 = one deleted reference base (1M1D1M: its second base sits on 102, it does not cover 101)
+    col0 = [pick(B, x) for x in [a0, a1, a2][:k]]
+    col1 = [pick(B, x) for x in [c0, c1, c2][:k]]
+    v = pick([0, 1, 2], variant)
+    frags = []
+    for i in range(k):
+        if i == 0 and v == 1:
+            frags.append(S.single_read_fragment(FakeRead, 100, col0[0] + 'T' + col1[0], [30, 30, 30], name='f0', cigartuples=[(0, 1), (1, 1), (0, 1)]))
+        elif i == 0 and v == 2:
+            frags.append(S.single_read_fragment(FakeRead, 100, col0[0] + col1[0], [30, 30], name='f0', cigartuples=[(0, 1), (2, 1), (0, 1)]))
+        else:
+            frags.append(S.single_read_fragment(FakeRead, 100, col0[i] + col1[i], [30, 30], name='f%d' % i))
+    if v == 2:
+        columns = [col0, [None] + col1[1:], [col1[0]] + [None] * (k - 1)]
+    else:
+        columns = [col0, col1]
+    return S.consensus_clause(frags, columns, 100) is None
+
+
 def _l4_order(a0: int, a1: int, a2: int, p: int, dup: bool, shift: int) -> bool:
     """
     pre: 0 <= a0 <= 4 and 0 <= a1 <= 4 and 0 <= a2 <= 4
@@ -152,6 +181,9 @@ LEMMAS = [
          cases={'quick': [dict(id='k%d' % k, pre=['k == %d' % k] + ['a%d == 0' % i for i in range(k, 4)] + ['c%d == 0' % i for i in range(4)]) for k in (1, 2, 3)] +
                          [dict(id='k4_a%d' % a, pre=['k == 4', 'a0 == %d' % a] + ['c%d == 0' % i for i in range(4)]) for a in range(5)] +
                          [dict(id='k3_two_positions_a%d' % a, pre=['k == 3', 'a0 == %d' % a, 'a3 == 0', 'c3 == 0', 'c0 <= 1', 'c1 <= 1', 'c2 <= 1']) for a in range(5)]}),
+    dict(name='L3b_majority_indel', fn='_l3b_majority_indel', engine='E1', timeout=_T, replay='replay.C13:replay',
+         cases={'quick': [dict(id='k%d_%s' % (k, 'ins' if v == 1 else 'del'), pre=['k == %d' % k, 'variant == %d' % v] + ['a%d == 0' % i for i in range(k, 3)] + ['c%d == 0' % i for i in range(k, 3)]) for k in (1, 2) for v in (1, 2)] +
+                         [dict(id='k3_%s_a%d' % ('ins' if v == 1 else 'del', a), pre=['k == 3', 'variant == %d' % v, 'a0 == %d' % a, 'c0 <= 1', 'c1 <= 1', 'c2 <= 1']) for v in (1, 2) for a in range(5)]}),
     dict(name='L4_order_duplication', fn='_l4_order', engine='E1', timeout=_T, replay='replay.C13:replay',
          cases={'quick': [dict(id='a%d_s%d_%s' % (a, sh, 'dup' if du else 'once'), pre=['a0 == %d' % a, 'shift == %d' % sh, 'dup == %s' % bool(du)]) for a in range(5) for sh in (0, 1) for du in (0, 1)]}),
 ]
@@ -159,8 +191,8 @@ LEMMAS = [
 PROPERTY = dict(
     functions=['sequtils.pick_best_base_call', 'sequtils.get_consensus_dictionaries / read_to_consensus_dict', 'fragment.Fragment.get_consensus', 'molecule.Molecule.get_consensus'],
     bounds=dict(pick_best='<=3 calls, bases over ACGTN, UNBOUNDED non-negative qualities, missing calls', mates='one pair overlapping by 0..4 bases, the overlapping base of each mate over ACGTN with quality 0..60, both orientations, dove_safe on/off; every placement of a forward mate of length 1..6 against a reverse mate of length 1..6 starting -3..+3 (dove tails on both sides)',
-                majority='1..4 single-read fragments x 1 position over ACGTN (all 5^4 columns), 3 fragments x 2 positions', order='all 6 insertion orders of 3 fragments, each fragment duplicated, partial overlap'),
-    outside=['molecules of more than 4 fragments (the vote is per position and count-based: argument only)', 'indels', 'only_include_refbase / cycle skipping options'],
+                majority='1..4 single-read fragments x 1 position over ACGTN (all 5^4 columns), 3 fragments x 2 positions; 1..3 fragments x 2 positions where the first fragment has a one-base insertion or deletion between them', order='all 6 insertion orders of 3 fragments, each fragment duplicated, partial overlap'),
+    outside=['molecules of more than 4 fragments (the vote is per position and count-based: argument only)', 'indels longer than one base / in more than one fragment', 'only_include_refbase / cycle skipping options'],
     assumptions=['bases are selected by symbolic indices into ACGTN (numpy sees concrete counts on each path)', 'FakeRead.get_aligned_pairs(with_seq) models pysam for M-only CIGARs'],
     trusted=['stubs/fakeread.py', 'spec/c13.py'],
 )
